@@ -19,8 +19,11 @@ from lib import Infra, rat
 
 MODULE = "ProbLogProofs.Properties.C01Ground"
 THEOREMS = [
+    "ProbLogProofs.C01Ground.C01_ground_truth_spec",
     "ProbLogProofs.C01Ground.Ground_table_inv",
     "ProbLogProofs.C01Ground.C01_ground_acyclic_correct",
+    "ProbLogProofs.C01Ground.C01_ground_acyclic_correct_init",
+    "ProbLogProofs.C01Ground.ground_value_unique",
     "ProbLogProofs.C01Ground.C03_ground_schedule_independent",
     "ProbLogProofs.C01Ground.C08_ground_history_independent",
 ]
@@ -510,16 +513,24 @@ def phase(ctx, kind, nq, nt):
         return
     rng = ctx.sub_rng("ground-acyclic-" + kind)
     n = ctx.budget(nq, nt)
-    progs = [gen_program(rng) for _ in range(n)]
     items = []
-    for P in progs:
-        if kind == "all":
-            items.append((P, "all", None, False))
-        elif kind == "sched":
-            items.append((P, "all", rng.randrange(1 << 30), False))
-        else:
-            items.append((P, "history", rng.randrange(1 << 30) if rng.random() < 0.5 else None, False))
-    reals = pmap(_work, items, chunksize=16)
+    if ctx.replay_in:
+        import json
+        rp = json.load(open(ctx.replay_in)).get("replay", {})
+        if not str(rp.get("tag", "")).startswith("ground-"):
+            return                     # a replay of one of the caller's other phases
+        items.append((_restore(rp["program"], rp.get("history")), rp["mode"], rp.get("sched_seed"), False))
+        n = 1
+    else:
+        for P in [gen_program(rng) for _ in range(n)]:
+            if kind == "all":
+                items.append((P, "all", None, False))
+            elif kind == "sched":
+                items.append((P, "all", rng.randrange(1 << 30), False))
+            else:
+                items.append((P, "history", rng.randrange(1 << 30) if rng.random() < 0.5 else None, False))
+    # (a process pool costs more than it saves on a few hundred programs of ~10 ms each)
+    reals = [_work(x) for x in items] if len(items) <= 500 else pmap(_work, items, chunksize=32)
     lines, comps = [], []
     for (P, mode, seed, _), R in zip(items, reals):
         C = compile_model(P)
@@ -545,7 +556,7 @@ def phase(ctx, kind, nq, nt):
         elif isinstance(M, str):
             diff = "model: %s; engine grounded without error" % M
         elif not (M[0] and M[1]):
-            raise Infra("ground_util: rank function rejected by the driver (generator bug): %s" % src)
+            raise Infra("ground_util: hypotheses of the theorems (wfB / fuel) rejected by the driver (generator bug): %s" % src)
         elif "sched_mismatch" in R:
             diff = "sibling batch does not match the model's clause list: " + R["sched_mismatch"]
         elif M[3] != R["store"]:
@@ -564,6 +575,34 @@ def phase(ctx, kind, nq, nt):
             find_failing_input(ctx, sdrv, P, mode, seed, kind)
     ctx.obligation("correspondence: grounding engine = model on %d ground acyclic programs (%s)" % (n, kind), nbad == 0,
                    "%d differences" % nbad)
+
+
+def _tup(x):
+    return tuple(_tup(y) for y in x) if isinstance(x, list) else x
+
+
+def _restore(P, history):
+    """A program that went through JSON (tuples became lists, Fractions strings)."""
+    P = dict(P)
+    st = []
+    for s in P["stmts"]:
+        s = list(s)
+        if s[0] == "pf":
+            st.append(("pf", F(s[1]), _tup(s[2])))
+        elif s[0] == "fact":
+            st.append(("fact", _tup(s[1])))
+        elif s[0] == "rule":
+            st.append(("rule", _tup(s[1]), [_tup(l) for l in s[2]]))
+        elif s[0] == "prule":
+            st.append(("prule", F(s[1]), _tup(s[2]), [_tup(l) for l in s[3]]))
+        else:
+            st.append(("ad", [(F(p), _tup(h)) for p, h in s[1]], [_tup(l) for l in s[2]]))
+    P["stmts"] = st
+    P["queries"] = [_tup(q) for q in P["queries"]]
+    P["evidence"] = [(_tup(a), v) for a, v in P["evidence"]]
+    P["preds"] = {k: tuple(v) for k, v in P["preds"].items()}
+    P["history"] = [(l, _tup(a)) for l, a in (history if history is not None else P.get("history", []))]
+    return P
 
 
 def find_failing_input(ctx, sdrv, P, mode, seed, kind):
@@ -587,3 +626,19 @@ def find_failing_input(ctx, sdrv, P, mode, seed, kind):
                  {"program": Q, "src": spine.to_src(Q), "tag": "ground-" + kind, "mode": mode, "sched_seed": seed,
                   "history": P.get("history")}, sig)
         break
+
+
+def guarded(ctx, kind, nq, nt):
+    """Run the phase; a harness exception inside it is returned (not raised) so that the caller's other phases still run
+    and report; `after` turns it into an infrastructure error unless a violation was reported anyway."""
+    try:
+        phase(ctx, kind, nq, nt)
+        return None
+    except Exception as e:     # noqa: B902 - deliberately everything: reported by `after`
+        return "%s: %s | %s" % (type(e).__name__, e, traceback.format_exc()[-1500:])
+
+
+def after(rc, gerr):
+    if gerr is not None and rc == 0:
+        raise Infra("ground-model phase (harness/ground_util.py) failed: " + gerr)
+    return rc
